@@ -13,11 +13,16 @@ import (
 func init() {
 	verifRegister("VerifC05_Serial", VerifC05_Serial)
 	verifRegister("VerifC05_Concurrent", VerifC05_Concurrent)
+	verifRegister("VerifC05_FinishTogether", VerifC05_FinishTogether)
 	verifRegister("VerifC05_Signals", VerifC05_Signals)
 	verifRegister("VerifC05_V1", VerifC05_V1)
 }
 
+var verifCallsMu sync.Mutex
+var verifStepBarrier *sync.WaitGroup
+
 func verifPluginSchema(calls *int) *schema.CallableSchema {
+	verifStepBarrier = nil
 	intProp := func() *schema.PropertySchema {
 		return schema.NewPropertySchema(schema.NewIntSchema(nil, nil, nil), nil, true, nil, nil, nil, nil, nil)
 	}
@@ -35,7 +40,15 @@ func verifPluginSchema(calls *int) *schema.CallableSchema {
 			},
 			nil,
 			func(ctx context.Context, in map[string]any) (string, any) {
+				verifCallsMu.Lock()
 				*calls = *calls + 1
+				b := verifStepBarrier
+				verifCallsMu.Unlock()
+				if b != nil {
+					// the steps of this session finish together
+					b.Done()
+					b.Wait()
+				}
 				return "ok", map[string]any{"o": in["n"].(int64) + 1}
 			},
 		),
@@ -137,6 +150,46 @@ func VerifC05_Concurrent() {
 	sess.srvDone.Wait()
 	verifEncodeLockCheck("C05/conc/writes-serialised")
 	verifReach("C05/conc/end")
+}
+
+// two accepted steps that finish at the same moment: their work-done messages are written by two goroutines, and
+// every write to the shared stream must be ordered by a common mutex (engine: lockset over the encoders; natively a
+// probe in the stream that the race detector watches)
+func VerifC05_FinishTogether() {
+	calls := 0
+	sess, err := verifStartSession(verifPluginSchema(&calls))
+	verifAssert("C05/together/handshake", err == nil)
+	if err != nil {
+		return
+	}
+	verifReach("C05/together/started")
+	var barrier sync.WaitGroup
+	barrier.Add(2)
+	verifStepBarrier = &barrier
+	verifEncodeLockBegin()
+	n1, n2 := nondetInt64("n1"), nondetInt64("n2")
+	verifAssume(vAnd(n1 >= 0, n2 >= 0))
+	var wg sync.WaitGroup
+	var r1, r2 ExecutionResult
+	wg.Add(2)
+	go func() {
+		defer wg.Done()
+		r1 = sess.client.Execute(schema.Input{RunID: "r1", ID: "inc", InputData: map[string]any{"n": n1}}, nil, nil)
+	}()
+	go func() {
+		defer wg.Done()
+		r2 = sess.client.Execute(schema.Input{RunID: "r2", ID: "inc", InputData: map[string]any{"n": n2}}, nil, nil)
+	}()
+	wg.Wait()
+	m1, ok1 := r1.OutputData.(map[any]any)
+	m2, ok2 := r2.OutputData.(map[any]any)
+	verifAssert("C05/together/first-own-result", r1.Error == nil && ok1 && verifWireInt(m1["o"]) == n1+1)
+	verifAssert("C05/together/second-own-result", r2.Error == nil && ok2 && verifWireInt(m2["o"]) == n2+1)
+	cerr := sess.client.Close()
+	verifAssert("C05/together/close", cerr == nil)
+	sess.srvDone.Wait()
+	verifEncodeLockCheck("C05/together/writes-serialised")
+	verifReach("C05/together/end")
 }
 
 func verifSignalPlugin(got *[]int64) *schema.CallableSchema {
